@@ -678,9 +678,12 @@ class Evaluator:
             return
         dty = t.get("dty") if t else None
         # an opaque callee sees the current contents of local places it is handed by reference
-        args = [self._resolve_refs(st, a) for a in args]
-        v = ("opq", self.fresh(), ("call", path, tuple(args), dty))
-        st.effects.append(("call", path, tuple(args), v[1]))
+        rargs = [self._resolve_refs(st, a) for a in args]
+        v = ("opq", self.fresh(), ("call", path, tuple(rargs), dty))
+        st.effects.append(("call", path, tuple(rargs), v[1]))
+        hook = getattr(self, "on_opaque", None)
+        if hook is not None:
+            hook(self, st, path, args)       # e.g. re-version the fields a `&mut self` callee may replace
         yield ("ret", st, v)
 
     def _resolve_refs(self, st, v, depth=0):
